@@ -58,6 +58,8 @@ type E7Spec struct {
 	CrossAppend   []FuncRuleSpec     `json:"cross_append"`
 	NestedModel   []NestedModelSpec  `json:"nested_model"`
 	DirectOnly    []FuncRuleSpec     `json:"direct_children_only"`
+	StaleElement  []FuncRuleSpec     `json:"stale_element"`
+	DroppedError  []DroppedErrorSpec `json:"dropped_error"`
 }
 
 type FuncRuleSpec struct {
@@ -216,6 +218,12 @@ func runE7(p *Program, sp *Spec, c *Collector) {
 	}
 	for _, do := range t.DirectOnly {
 		runDirectOnly(p, c, do)
+	}
+	for _, se := range t.StaleElement {
+		runStaleElement(p, c, se)
+	}
+	for _, de := range t.DroppedError {
+		runDroppedError(p, c, de)
 	}
 	for _, n := range t.NoExit {
 		runNoExit(p, sp, c, n)
@@ -419,31 +427,21 @@ func dependsOnCarriedPhi(v ssa.Value, region map[*ssa.BasicBlock]bool, seen map[
 	}
 	seen[v] = true
 	if phi, ok := v.(*ssa.Phi); ok && region[phi.Block()] {
-		// index phi of a range loop: t = phi[-1, t+1] used only for indexing — not a delta
-		isIndex := false
-		for i, e := range phi.Edges {
-			if region[phi.Block().Preds[i]] {
-				if bo, ok := e.(*ssa.BinOp); ok && bo.X == ssa.Value(phi) {
-					if k, ok := constInt(bo.Y); ok && k == 1 {
-						// could be either; an index phi starts at -1
-						for j, e2 := range phi.Edges {
-							if !region[phi.Block().Preds[j]] {
-								if k0, ok := constInt(e2); ok && k0 == -1 {
-									isIndex = true
-								}
-							}
-						}
-					}
-				}
-			}
-		}
-		if !isIndex {
-			return true
-		}
+		// any header phi reached through arithmetic counts — also the index of a range loop, `line-(i+1)`; a phi that only
+		// selects the element (xs[i]) is never reached: the index operand of an element access is not followed below
+		return true
 	}
 	if in, ok := v.(ssa.Instruction); ok {
 		if _, isPhi := v.(*ssa.Phi); isPhi {
 			return false
+		}
+		switch x := in.(type) {
+		case *ssa.IndexAddr:
+			return dependsOnCarriedPhi(x.X, region, seen)
+		case *ssa.Index:
+			return dependsOnCarriedPhi(x.X, region, seen)
+		case *ssa.Lookup:
+			return dependsOnCarriedPhi(x.X, region, seen)
 		}
 		var ops []*ssa.Value
 		ops = in.Operands(ops)
@@ -651,7 +649,17 @@ func runTokenTable(p *Program, c *Collector, t TokenTblSpec) {
 			for _, v := range wantVals {
 				want = sOr(want, sBin("==", tt, sInt(v)))
 			}
-			// compare only the token-type part: conjuncts of got that mention GetTokenType
+			// the question is asked per token: what held when the innermost loop around the call was entered (the file could
+			// be opened, …) is context on both sides
+			var inner map[*ssa.BasicBlock]bool
+			for _, loop := range naturalLoops(fn) {
+				if loop[b] && (inner == nil || len(loop) < len(inner)) {
+					inner = loop
+				}
+			}
+			if inner != nil {
+				want = sAnd(sf.pathCond(loopHeader(inner)), want)
+			}
 			res := compareSyms(got, want, "bool")
 			if res.Equal {
 				c.Ob(t.Props, "E7.token-table", key, Discharged, fmt.Sprintf("%s: the guard accepts exactly the generated constants %v", t.What, wantVals), p.InstrPos(in), true)
@@ -1682,6 +1690,20 @@ func valueFromParam(v ssa.Value, prm *ssa.Parameter, seen map[ssa.Value]bool) bo
 		}
 	case *ssa.FieldAddr, *ssa.IndexAddr:
 		return locationFromParam(x, prm, seen)
+	case *ssa.Call:
+		// a list of the same records handed back by a function that was given the input (flattened, filtered, re-ordered): the
+		// records are copies, but the lists inside them are the input's
+		if x.Call.IsInvoke() || x.Call.StaticCallee() == nil || x.Call.StaticCallee().Pkg == nil {
+			return false
+		}
+		if _, isSlice := x.Type().Underlying().(*types.Slice); !isSlice {
+			return false
+		}
+		for _, a := range x.Call.Args {
+			if types.Identical(a.Type(), x.Type()) && valueFromParam(a, prm, seen) {
+				return true
+			}
+		}
 	}
 	return false
 }
